@@ -60,6 +60,15 @@ def in_crosshair():
     return getattr(_THREAD_LOCALS, "space", None) is not None and is_tracing()
 
 
+def in_crosshair_thread():
+    """True iff the current thread is the one CrossHair analyses, whether or not tracing is momentarily switched off."""
+    try:
+        from crosshair.statespace import _THREAD_LOCALS
+    except Exception:
+        return False
+    return getattr(_THREAD_LOCALS, "space", None) is not None
+
+
 def _realize(x):
     if not in_crosshair():
         return x          # (also: a NoTracing block left by another thread would hand CrossHair's tracer to that thread)
